@@ -316,6 +316,8 @@ type buildResult struct {
 	Executed map[string]bool   // function-target labels whose body started
 	StepAt   map[string]int
 	Sched    *vsched.Result
+	AfterRun map[string]string // GCAfterRun: the tree between Run and GC
+	GCErr    error
 	finish   func() // (re)captures events, steps and the tree; called again once every thread has finished
 }
 
@@ -337,6 +339,7 @@ type buildOpts struct {
 	GC          bool
 	PreferIndex bool
 	SnapLoad    bool
+	GCAfterRun  bool   // Run, then GC on the SAME loaded Project (a long-lived process: REPL, watch mode, library use)
 	Interrupt   string // the build runs in a child process that dies just before emitting this file
 }
 
@@ -406,6 +409,10 @@ func buildRaw(root string, v Vars, o buildOpts) *buildResult {
 			if err := proj.Run(l2, nil); err != nil && res.RunErr == nil {
 				res.RunErr = err
 			}
+		}
+		if o.GCAfterRun {
+			res.AfterRun = readTree(root)
+			res.GCErr = proj.GC()
 		}
 	}
 	res.finish = func() {
